@@ -226,4 +226,41 @@ OffAlK(X, Y, off, W, Yh, R, j, tt, f32) ==
   SumSeq([i \in 1..Len(X) |-> Abs(X[i][j])]) * PredNoise(X, off, W, tt, f32)
     + SumSeq([l \in 1..Len(W) |-> (Abs(CGram(X)[j][l]) \div Len(X) + 1) * CoefSlack(X, Y, off, W, Yh, R, l, tt, f32)])
     + Abs(ColSum(X, j)) * (OffAl0(X, off, W, tt, f32) \div Len(X) + 1)
+
+-----------------------------------------------------------------------------
+(* Closed-form minimiser without an l1 part (pure ridge, or penalty 0 on full-rank data), p <= 2:                 *)
+(*   intercept:    (D*M + n*PL2*I) w = D*v      (M = n * centred Gram, v = n * X_c ' y_c)                         *)
+(*   no intercept: (D*G + PL2*I)   w = D*X'y    (G = X'X)                                                          *)
+(* i.e. (Gram + n*pen*(1-l1)*I) w = X'y, the ridge normal equations, in integers.                                  *)
+UGram(X) == [a \in 1..Len(X[1]) |-> [bq \in 1..Len(X[1]) |-> SumSeq([i \in 1..Len(X) |-> X[i][a] * X[i][bq]])]]
+UVec(X, Y, tt) == [a \in 1..Len(X[1]) |-> SumSeq([i \in 1..Len(X) |-> X[i][a] * Y[i][tt]])]
+RidgeA(pen, X, icpt) ==
+  LET n == Len(X)  pp == Len(X[1])
+      G == IF icpt THEN CGram(X) ELSE UGram(X)
+      dg == IF icpt THEN n * PL2(pen, n) ELSE PL2(pen, n)
+  IN [a \in 1..pp |-> [bq \in 1..pp |-> PD(pen) * G[a][bq] + (IF a = bq THEN dg ELSE 0)]]
+RidgeB(pen, X, Y, tt, icpt) ==
+  LET v == IF icpt THEN CVec(X, Y, tt) ELSE UVec(X, Y, tt) IN [a \in 1..Len(v) |-> PD(pen) * v[a]]
+RidgeK(pen, X, icpt) == IF icpt THEN Len(X) * PD(pen) ELSE PD(pen)         \* H^-1 = K * adj(A) / det(A)
+\* the integer arithmetic of the closed form stays inside 31 bits (otherwise the clause is not applied)
+RidgeInRange(pen, X, Y, tt, icpt) ==
+  LET n == Len(X)  pp == Len(X[1])  G == IF icpt THEN CGram(X) ELSE UGram(X) IN
+  /\ pp <= 2
+  /\ \A a \in 1..pp : \A bq \in 1..pp : Abs(G[a][bq]) <= 46000 \div PD(pen) - n * PL2(pen, n) - 1
+  /\ LET A == RidgeA(pen, X, icpt)  bb == RidgeB(pen, X, Y, tt, icpt)  dt == Det(A) IN
+     /\ Abs(dt) > 0 /\ Abs(dt) < 200000000
+     /\ \A a \in 1..pp : \A l \in 1..pp : Abs(bb[l]) <= 500000000 \div (Abs(AdjE(A, a, l)) + 1)
+     /\ \A a \in 1..pp : \A l \in 1..pp : Abs(AdjE(A, a, l)) <= 100000000 \div (RidgeK(pen, X, icpt) * 20)
+     /\ \A a \in 1..pp : Abs(SumSeq([l \in 1..pp |-> AdjE(A, a, l) * bb[l]])) \div Abs(dt) <= 50
+RidgeStar(pen, X, Y, tt, icpt) ==
+  LET A == RidgeA(pen, X, icpt)  bb == RidgeB(pen, X, Y, tt, icpt)  dt == Det(A) IN
+  [a \in 1..Len(A) |-> RatS5(SumSeq([l \in 1..Len(A) |-> AdjE(A, a, l) * bb[l]]), dt)]
+\* slack: quantisation + floor (3) + a stationarity residual of RidgeRes units propagated through H^-1
+RidgeRes == 10
+RidgeSlack(pen, X, a, icpt) ==
+  LET A == RidgeA(pen, X, icpt) IN
+  3 + SumSeq([l \in 1..Len(A) |-> (Abs(AdjE(A, a, l)) * RidgeK(pen, X, icpt) * RidgeRes) \div Abs(Det(A)) + 1])
+RidgeOk(pen, X, Y, W, tt, icpt) ==
+  LET ws == RidgeStar(pen, X, Y, tt, icpt) IN
+  \A a \in 1..Len(W) : Abs(W[a][tt] - ws[a]) <= RidgeSlack(pen, X, a, icpt)
 =============================================================================
